@@ -181,14 +181,24 @@ def main():
     res = []
     import shutil
     try:
+        from concurrent.futures import ThreadPoolExecutor
+
+        def crash_child(arg):
+            i, case = arg
+            path = os.path.join(root, "c%d.%s" % (i, ext_of(case["fmt"])))
+            c2 = dict(case, path=path)
+            r = subprocess.run([sys.executable, os.path.abspath(__file__), "--child"], input=json.dumps(c2),
+                               stdout=subprocess.PIPE, stderr=subprocess.PIPE, text=True, timeout=300)
+            return i, r.returncode
+
+        crashing = [(i, c) for i, c in enumerate(payload["cases"]) if any(op[0] == "crash" for op in c["ops"])]
+        with ThreadPoolExecutor(max_workers=4) as ex:          # the children are independent processes
+            child_rc = dict(ex.map(crash_child, crashing))
         for i, case in enumerate(payload["cases"]):
             path = os.path.join(root, "c%d.%s" % (i, ext_of(case["fmt"])))
-            crashed = any(op[0] == "crash" for op in case["ops"])
+            crashed = i in child_rc
             if crashed:
-                c2 = dict(case, path=path)
-                r = subprocess.run([sys.executable, os.path.abspath(__file__), "--child"], input=json.dumps(c2),
-                                   stdout=subprocess.PIPE, stderr=subprocess.PIPE, text=True, timeout=300)
-                ops = [{"child_rc": r.returncode}]
+                ops = [{"child_rc": child_rc[i]}]
             else:
                 ops = run_ops(case, path)
             res.append({"ops": ops, "load": observe(path, case["fmt"]), "crashed": crashed})
